@@ -47,6 +47,7 @@ type HarnessCfg struct {
 	Tiers     []string          `json:"tiers"` // tiers in which this harness runs (empty = all)
 	Params    map[string]int    `json:"params"` // harness parameters per tier read through verif_param
 	NoReplay  bool              `json:"noreplay"`
+	SingleThread bool           `json:"single_thread"` // no other goroutine exists: TryLock succeeds iff the executed thread does not hold the lock
 }
 
 type Exec struct {
